@@ -39,9 +39,9 @@ func runC04(c *harness.Ctx) {
 	// start within +-2 s of an hour boundary half of the time
 	switch t.Draw("t0", 4) {
 	case 1:
-		time.Sleep(time.Hour - 2*time.Second + time.Duration(t.Draw("t0ms", 4000))*time.Millisecond)
+		c.S.Sleep(time.Hour - 2*time.Second + time.Duration(t.Draw("t0ms", 4000))*time.Millisecond)
 	case 2:
-		time.Sleep(time.Duration(t.Draw("t0min", 60)) * time.Minute)
+		c.S.Sleep(time.Duration(t.Draw("t0min", 60)) * time.Minute)
 	}
 	var blobs []*c04Blob
 	nSub := 0
@@ -147,7 +147,7 @@ func runC04(c *harness.Ctx) {
 	for op := 0; op < nOps && !c.S.Violated(); op++ {
 		gap := []time.Duration{0, 0, time.Second, 10 * time.Minute, 59 * time.Minute, time.Hour, 2 * time.Hour, 3*time.Hour + 10*time.Minute, 2*time.Hour + 59*time.Minute + 59*time.Second}[t.Draw("gap", 9)]
 		if gap > 0 {
-			time.Sleep(gap)
+			c.S.Sleep(gap)
 		}
 		kind := t.Draw("op", 4)
 		if len(blobs) == 0 && (kind == 1) {
